@@ -959,16 +959,38 @@ PROPS["C18"] = {"generate": c18_generate, "judge": c18_judge, "group_judge": c18
 # ---- C15
 def c15_generate(rng, tier):
     a = genhist.gen_rt(rng, count(tier, 250, 2500), nmax=count(tier, 5, 6), faults=("all" if tier == "thorough" else None))
-    return tag_cmp(a, None)
+    b = tag_cmp(genhist.gen_txt_fields(rng, count(tier, 300, 3000)), ["line", "parsed_line", "parsed_text"])
+    return tag_cmp(a, None) + b
+
+
+def c15_judge(rec):
+    """the library's own TXT file, field layer: what it writes after the prefix is the join of the
+    sorted names, and reading the file back returns exactly the names whenever they are clean"""
+    s, l = rec["scn"], rec["lean"]
+    fails = []
+    if s.get("op") != "txt_fields":
+        return fails
+    for hs, p in rec["py"].items():
+        lib = p.get("_lib") if isinstance(p, dict) else None
+        if not lib:
+            continue
+        exp = " " + ", ".join(lib["sorted_names"])
+        if lib["first_line_tail"] != exp:
+            fails.append(f"VERTICES line is {lib['first_line_tail']!r}, expected {exp!r}")
+        clean = isinstance(l, dict) and all(l.get("clean", []))
+        if clean and lib["read_back"] != lib["sorted_names"]:
+            fails.append(f"clean names {lib['sorted_names']} read back as {lib['read_back']}")
+    return fails
 
 
 NONTRIVIAL_RULE["C15"] = "non-trivial: n>=2 vertices; distinct by canonical scenario"
 PROPS["C15"] = {"generate": c15_generate,
-                "strata": lambda rec: [f"kind={rec['scn']['kind']}", f"names={rec['scn'].get('_style')}", f"txt={rec['scn'].get('txt')}", f"n={rec['scn']['n']}"],
-                "nontrivial": lambda rec: rec["scn"]["n"] >= 2,
+                "strata": lambda rec: [f"op={rec['scn'].get('op')}", f"kind={rec['scn'].get('kind', rec['scn'].get('_kind'))}", f"names={rec['scn'].get('_style')}", f"txt={rec['scn'].get('txt')}", f"n={rec['scn'].get('n')}"],
+                "nontrivial": lambda rec: rec["scn"].get("n", len(rec["scn"].get("names", []))) >= 2,
+                "judge": c15_judge,
                 "level": "proof",
                 "rule": "graphs, divisors (magnitudes up to 10^30, also results of CFLaplacian.apply), partial/full orientations, sparse/dense scripts with plain, Unicode, long, blank-containing, digit-like and hostile names; dict (through json text), JSON file and TXT file round trips compared observationally with the original; fault enumeration per written file: byte-prefix truncations (quick: 64 evenly spaced + last 16; thorough: all) and single-byte corruptions (quick 48 random; thorough every position x 3 values): must not raise, JSON proper prefixes must read None, anything returned must be a well-formed object; missing files read None",
-                "theorems": ["graph_dict_roundtrip", "edge_list_canonical", "divisor_dict_roundtrip", "script_dict_roundtrip", "decimal_roundtrip", "orientation_dict_roundtrip"]}
+                "theorems": ["graph_dict_roundtrip", "edge_list_canonical", "divisor_dict_roundtrip", "script_dict_roundtrip", "decimal_roundtrip", "orientation_dict_roundtrip", "txt_fields_roundtrip"]}
 
 
 # ---- C19
